@@ -308,7 +308,12 @@ func (root *Root) addExtends(extends ...*Extend) (undo []func(), err error) {
 				cur = root.dirs.get(x.Adds.Name())
 			}
 		} else if schema, _ := x.Adds.(*Schema); schema != nil {
-			// Extending the implicit schema, make sure there is one.
+			// Extending the implicit schema, make sure there is one. The
+			// default root operation types that arrived with this load
+			// are added to it by that so remember how it was first.
+			if root.schema != nil {
+				undo = append(undo, extendUndo(root.schema))
+			}
 			root.assureSchema()
 			cur = root.schema
 		}
